@@ -160,6 +160,34 @@ pub fn run(args: &Args) {
         }
         out.ev(json!({"ev":"hist","ops":ops}));
     }
+    // ---- tone period written in halves, in either order, through boundary values (fine byte 0, period 0 acting as 1,
+    // exact multiples of 256), each followed by more than a full period of generation
+    for h in 0..n.max(8) {
+        let mut ay = chip(AyMode::Mono, 44100);
+        let mut ops: Vec<Value> = vec![];
+        let ch = (h % 3) as u8;
+        let (mut fine, mut coarse) = (0u8, 0u8);
+        let mut w = |ay: &mut AymPrecise, ops: &mut Vec<Value>, reg: u8, val: u8| {
+            ay.write_register(reg, val);
+            ops.push(json!(["w", reg, val]));
+        };
+        w(&mut ay, &mut ops, 7, 0x3F & !(1 << ch));
+        w(&mut ay, &mut ops, 8 + ch, 0x0F);
+        for _ in 0..(3 + r.below(4)) {
+            if r.chance(1, 2) {
+                fine = *r.pick(&[0u8, 0, 1, 2, 0xFF, 0x80, 7]);
+                w(&mut ay, &mut ops, 2 * ch, fine);
+            } else {
+                coarse = *r.pick(&[0u8, 0, 1, 1, 2, 0x10, 0xF1]); // (bits 4-7 are not implemented)
+                w(&mut ay, &mut ops, 2 * ch + 1, coarse);
+            }
+            let tp = ((fine as usize) | (((coarse & 0x0F) as usize) << 8)).max(1);
+            ay.verif_take_levels();
+            let lv = run_ticks(&mut ay, 2 * tp + 20 + r.below(40) as usize);
+            ops.push(json!(["run", lv.iter().map(|x| x.to_vec()).collect::<Vec<_>>()]));
+        }
+        out.ev(json!({"ev":"hist","ops":ops}));
+    }
     // ---- envelope period rewritten in mid-step (no R13 write afterwards): the envelope goes on with the new period
     for h in 0..n.max(16) {
         let mut ay = chip(AyMode::Mono, 44100);
